@@ -147,6 +147,11 @@ def _read_block_items(
     if current_item:
         items.append(current_item)
 
+    # Blank lines that separate an item from the next item or section are not part of its description.
+    for item in items:
+        while len(item) > 1 and not item[-1]:
+            item.pop()
+
     return items, new_offset - 1
 
 
